@@ -27,6 +27,7 @@ func genSites() error {
 	var appends []site
 	protoCalls := map[string]map[string]bool{}
 	var clock []site
+	var writes []site
 	for _, dir := range evaluatorDirs {
 		ents, err := os.ReadDir(filepath.Join(repo, dir))
 		if err != nil {
@@ -46,6 +47,25 @@ func genSites() error {
 					continue
 				}
 				fresh := freshLocals(fd)
+				roots := rootClasses(fd)
+				ast.Inspect(fd.Body, func(n ast.Node) bool {
+					as, ok := n.(*ast.AssignStmt)
+					if !ok {
+						return true
+					}
+					for _, l := range as.Lhs {
+						switch l.(type) {
+						case *ast.SelectorExpr, *ast.IndexExpr, *ast.StarExpr:
+							root := rootIdent(l)
+							cls, known := roots[root]
+							if !known {
+								cls = "package-variable-or-unknown"
+							}
+							writes = append(writes, site{dir, fd.Name.Name, exprText(l), cls, fmt.Sprintf("%s:%d", e.Name(), fset.Position(as.Pos()).Line)})
+						}
+					}
+					return true
+				})
 				ast.Inspect(fd.Body, func(n ast.Node) bool {
 					c, ok := n.(*ast.CallExpr)
 					if !ok {
@@ -119,6 +139,21 @@ func genSites() error {
 		b.WriteString(fmt.Sprintf("  (%s, [%s])%s\n", leanStr(k), strings.Join(ms, ", "), sep))
 	}
 	b.WriteString("]\n\n")
+	b.WriteString("/-- assignments through a selector, index or pointer, with the class of the root identifier:\n    local (declared in the function), param:<name>, receiver -/\ndef writes : List AppendSite := [\n")
+	for i, s := range writes {
+		sep := ","
+		if i == len(writes)-1 {
+			sep = ""
+		}
+		b.WriteString(fmt.Sprintf("  ⟨%s, %s, %s, %s, %s⟩%s\n", leanStr(s.pkg), leanStr(s.fn), leanStr(s.target), leanStr(s.prov), leanStr(s.pos), sep))
+	}
+	b.WriteString("]\n\n")
+	// shape of funcs.Clone: a new map filled from baseTable
+	cs, err := cloneShape()
+	if err != nil {
+		return err
+	}
+	b.WriteString(fmt.Sprintf("/-- `funcs.Clone` allocates a new table and copies the base entries into it (shape read from table.go) -/\ndef cloneCopies : Bool := %v\n\n", cs))
 	b.WriteString("def clockCalls : List (String × String × String) := [\n")
 	for i, s := range clock {
 		sep := ","
@@ -257,4 +292,115 @@ func freshLocals(fd *ast.FuncDecl) map[string]bool {
 		}
 	}
 	return fresh
+}
+
+
+func rootIdent(e ast.Expr) string {
+	switch x := e.(type) {
+	case *ast.Ident:
+		return x.Name
+	case *ast.SelectorExpr:
+		return rootIdent(x.X)
+	case *ast.IndexExpr:
+		return rootIdent(x.X)
+	case *ast.StarExpr:
+		return rootIdent(x.X)
+	case *ast.ParenExpr:
+		return rootIdent(x.X)
+	case *ast.CallExpr:
+		return rootIdent(x.Fun)
+	}
+	return "?"
+}
+
+// rootClasses: identifiers declared in the function (locals), its parameters and receiver.
+func rootClasses(fd *ast.FuncDecl) map[string]string {
+	out := map[string]string{}
+	if fd.Recv != nil {
+		for _, f := range fd.Recv.List {
+			for _, n := range f.Names {
+				out[n.Name] = "receiver"
+			}
+		}
+	}
+	for _, f := range fd.Type.Params.List {
+		for _, n := range f.Names {
+			out[n.Name] = "param:" + n.Name
+		}
+	}
+	ast.Inspect(fd.Body, func(n ast.Node) bool {
+		switch x := n.(type) {
+		case *ast.AssignStmt:
+			if x.Tok == token.DEFINE {
+				for _, l := range x.Lhs {
+					if id, ok := l.(*ast.Ident); ok {
+						if _, have := out[id.Name]; !have {
+							out[id.Name] = "local"
+						}
+					}
+				}
+			}
+		case *ast.DeclStmt:
+			if gd, ok := x.Decl.(*ast.GenDecl); ok && gd.Tok == token.VAR {
+				for _, s := range gd.Specs {
+					for _, n := range s.(*ast.ValueSpec).Names {
+						out[n.Name] = "local"
+					}
+				}
+			}
+		case *ast.RangeStmt:
+			for _, e := range []ast.Expr{x.Key, x.Value} {
+				if id, ok := e.(*ast.Ident); ok && x.Tok == token.DEFINE {
+					out[id.Name] = "local"
+				}
+			}
+		case *ast.FuncLit:
+			for _, f := range x.Type.Params.List {
+				for _, n := range f.Names {
+					out[n.Name] = "param:" + n.Name
+				}
+			}
+		}
+		return true
+	})
+	return out
+}
+
+// cloneShape: funcs.Clone must be `table := make(FunctionTable); for k, v := range baseTable { table[k] = v }; return table`.
+func cloneShape() (bool, error) {
+	_, f, err := parseFile("fhirpath/internal/funcs/table.go")
+	if err != nil {
+		return false, err
+	}
+	fd := findFunc(f, "", "Clone")
+	if fd == nil {
+		return false, fmt.Errorf("funcs.Clone not found")
+	}
+	madeNew, copied, returned := "", false, false
+	for _, st := range fd.Body.List {
+		switch x := st.(type) {
+		case *ast.AssignStmt:
+			if len(x.Rhs) == 1 {
+				if c, ok := x.Rhs[0].(*ast.CallExpr); ok && selName(c.Fun) == "make" {
+					madeNew = x.Lhs[0].(*ast.Ident).Name
+				}
+				if cl, ok := x.Rhs[0].(*ast.CompositeLit); ok && len(cl.Elts) == 0 {
+					madeNew = x.Lhs[0].(*ast.Ident).Name
+				}
+			}
+		case *ast.RangeStmt:
+			if selName(x.X) == "baseTable" && len(x.Body.List) == 1 {
+				if as, ok := x.Body.List[0].(*ast.AssignStmt); ok && len(as.Lhs) == 1 {
+					if ie, ok := as.Lhs[0].(*ast.IndexExpr); ok && selName(ie.X) == madeNew && madeNew != "" {
+						copied = true
+					}
+				}
+			}
+		case *ast.ReturnStmt:
+			if len(x.Results) == 1 && selName(x.Results[0]) == madeNew && madeNew != "" {
+				returned = true
+			}
+		}
+	}
+	return madeNew != "" && copied && returned, nil
 }
